@@ -462,3 +462,977 @@ Proof.
   exact (unpack_fields_vl _ _ _ _ IH _ _ _ _ _ _ _ _ _ _ slots_ok_nil H).
 Qed.
 End Deep.
+
+(* ------------------------------------------------------------------------------------------ *)
+(* the two instances: local, closed                                                           *)
+(* ------------------------------------------------------------------------------------------ *)
+
+Lemma vlocal_pkt : forall c s, value_local (VPkt c s) = forallb (fun p => value_local (snd p)) s.
+Proof.
+  intros c. induction s as [|[g a] r IH]; [reflexivity|].
+  change (value_local (VPkt c ((g, a) :: r))) with (value_local a && value_local (VPkt c r)).
+  rewrite IH. reflexivity.
+Qed.
+Lemma vclosed_pkt : forall c s, value_closed (VPkt c s) = forallb (fun p => value_closed (snd p)) s.
+Proof.
+  intros c. induction s as [|[g a] r IH]; [reflexivity|].
+  change (value_closed (VPkt c ((g, a) :: r))) with (value_closed a && value_closed (VPkt c r)).
+  rewrite IH. reflexivity.
+Qed.
+
+Notation lslots_ok := (slots_ok value_local).
+Notation cslots_ok := (slots_ok value_closed).
+
+Lemma local_eval_indep : forall cx cx' e, e_slots cx = e_slots cx' -> expr_local e = true -> eval cx e = eval cx' e.
+Proof.
+  intros cx cx' e Hs He.
+  refine (eval_indep expr_local _ _ _ _ _ _ _ cx cx' Hs _ e He); try reflexivity. intros H. discriminate H.
+Qed.
+Lemma local_eval_int_indep : forall cx cx' e, e_slots cx = e_slots cx' -> expr_local e = true -> eval_int cx e = eval_int cx' e.
+Proof. intros cx cx' e Hs He. unfold eval_int. rewrite (local_eval_indep cx cx' e Hs He). reflexivity. Qed.
+Lemma local_eval_ok : forall cx e v, lslots_ok (e_slots cx) -> expr_local e = true -> eval cx e = Ok v -> value_local v = true.
+Proof.
+  intros cx e v Hs He Hv.
+  refine (eval_ok expr_local value_local _ _ _ _ _ _ _ _ _ _ _ vlocal_pkt cx Hs e v He Hv); reflexivity.
+Qed.
+
+Lemma closed_eval_indep : forall cx cx' e, e_slots cx = e_slots cx' -> e_offset cx = e_offset cx' ->
+  expr_closed e = true -> eval cx e = eval cx' e.
+Proof.
+  intros cx cx' e Hs Ho He.
+  refine (eval_indep expr_closed _ _ _ _ _ _ _ cx cx' Hs (fun _ => Ho) e He); reflexivity.
+Qed.
+Lemma closed_eval_int_indep : forall cx cx' e, e_slots cx = e_slots cx' -> e_offset cx = e_offset cx' ->
+  expr_closed e = true -> eval_int cx e = eval_int cx' e.
+Proof. intros cx cx' e Hs Ho He. unfold eval_int. rewrite (closed_eval_indep cx cx' e Hs Ho He). reflexivity. Qed.
+Lemma closed_eval_ok : forall cx e v, cslots_ok (e_slots cx) -> expr_closed e = true -> eval cx e = Ok v -> value_closed v = true.
+Proof.
+  intros cx e v Hs He Hv.
+  refine (eval_ok expr_closed value_closed _ _ _ _ _ _ _ _ _ _ _ vclosed_pkt cx Hs e v He Hv); reflexivity.
+Qed.
+
+(* a local abbreviation: the hypotheses of the "parsed values" lemmas, discharged for both instances *)
+Ltac vl_hyps := first [exact vlocal_pkt | exact vclosed_pkt | reflexivity | intros; reflexivity].
+
+Lemma local_unpack_any_vl : forall host ct raw fuel c off v e t,
+  unpack_any fuel host ct raw c off = POk v e t -> value_local v = true.
+Proof. apply (unpack_any_vl value_local); vl_hyps. Qed.
+Lemma local_unpack_pkt_vl : forall host ct raw fuel c off v e t,
+  unpack_pkt fuel host ct raw c off = POk v e t -> value_local v = true.
+Proof. apply (unpack_pkt_vl value_local); vl_hyps. Qed.
+Lemma closed_unpack_any_vl : forall host ct raw fuel c off v e t,
+  unpack_any fuel host ct raw c off = POk v e t -> value_closed v = true.
+Proof. apply (unpack_any_vl value_closed); vl_hyps. Qed.
+
+(* ------------------------------------------------------------------------------------------ *)
+(* a prefix before the input: slices and kernels                                              *)
+(* ------------------------------------------------------------------------------------------ *)
+
+Lemma slice_pre (pre raw : bytes) (a b : Z) : 0 <= a ->
+  slice (pre ++ raw) (a + blen pre) (b + blen pre) = slice raw a b.
+Proof.
+  intros Ha. unfold slice. replace (b + blen pre - (a + blen pre)) with (b - a) by lia.
+  replace (Z.to_nat (a + blen pre)) with (length pre + Z.to_nat a)%nat by (unfold blen; lia).
+  rewrite <- skipn_skipn', skipn_len_app. reflexivity.
+Qed.
+
+Lemma slice_from_pre (pre raw : bytes) (a : Z) : 0 <= a -> slice_from (pre ++ raw) (a + blen pre) = slice_from raw a.
+Proof.
+  intros Ha. unfold slice_from.
+  replace (Z.to_nat (a + blen pre)) with (length pre + Z.to_nat a)%nat by (unfold blen; lia).
+  rewrite <- skipn_skipn', skipn_len_app. reflexivity.
+Qed.
+
+Section PreKernels.
+Variables pre raw : bytes.
+Notation d := (blen pre).
+
+Lemma int_unpack_pre : forall n s big off, 0 <= off ->
+  int_unpack n s big (pre ++ raw) (off + d) =
+  match int_unpack n s big raw off with Some (v, o) => Some (v, o + d) | None => None end.
+Proof.
+  intros n s big off Ho. unfold int_unpack. replace (off + d + n) with (off + n + d) by lia.
+  rewrite slice_pre by exact Ho. destruct (decode n s big (slice raw off (off + n))); reflexivity.
+Qed.
+
+Lemma data_sized_pre : forall off bc, 0 <= off ->
+  data_sized (pre ++ raw) (off + d) bc =
+  match data_sized raw off bc with Some (v, o) => Some (v, o + d) | None => None end.
+Proof.
+  intros off bc Ho. unfold data_sized, data_next. replace (off + d + bc) with (off + bc + d) by lia.
+  rewrite slice_pre by exact Ho. destruct (data_short _ bc); reflexivity.
+Qed.
+
+Lemma window_pre : forall off sbl, 0 <= off -> window (pre ++ raw) (off + d) sbl = window raw off sbl.
+Proof.
+  intros off sbl Ho. unfold window. destruct sbl as [l|]; [destruct (l =? 0)|].
+  - apply slice_from_pre. exact Ho.
+  - replace (off + d + l) with (off + l + d) by lia. apply slice_pre. exact Ho.
+  - apply slice_from_pre. exact Ho.
+Qed.
+
+Lemma data_marker_pre : forall off sbl m incl, 0 <= off ->
+  data_marker (pre ++ raw) (off + d) sbl m incl =
+  match data_marker raw off sbl m incl with Some (v, o) => Some (v, o + d) | None => None end.
+Proof.
+  intros off sbl m incl Ho. unfold data_marker. rewrite window_pre by exact Ho.
+  destruct (find (window raw off sbl) m) as [k|]; [|reflexivity].
+  replace (off + d + marker_count k (blen m) incl) with (off + marker_count k (blen m) incl + d) by lia.
+  rewrite slice_pre by exact Ho. f_equal. f_equal. lia.
+Qed.
+
+Lemma data_regex_pre : forall off sbl r incl, 0 <= off ->
+  data_regex (pre ++ raw) (off + d) sbl r incl =
+  match data_regex raw off sbl r incl with Some (v, o, dl) => Some (v, o + d, dl) | None => None end.
+Proof.
+  intros off sbl r incl Ho. unfold data_regex. rewrite window_pre by exact Ho.
+  destruct (re_search r (window raw off sbl)) as [[st en]|] eqn:R; [|reflexivity].
+  apply re_search_bounds in R. destruct R as (Hst & _).
+  replace (off + d + en) with (off + en + d) by lia. replace (off + d + st) with (off + st + d) by lia.
+  destruct incl; rewrite !slice_pre by lia; reflexivity.
+Qed.
+
+Lemma data_eos_pre : forall off, 0 <= off ->
+  data_eos (pre ++ raw) (off + d) = (fst (data_eos raw off), snd (data_eos raw off) + d).
+Proof.
+  intros off Ho. unfold data_eos. cbn [fst snd]. rewrite blen_app.
+  replace (d + blen raw - (off + d)) with (blen raw - off) by lia.
+  replace (off + d + (blen raw - off)) with (off + (blen raw - off) + d) by lia.
+  rewrite slice_pre by exact Ho. reflexivity.
+Qed.
+
+Lemma unpack_leaf_pre : forall host cf c name l s off, leaf_local l = true -> 0 <= off ->
+  unpack_leaf host (pre ++ raw) cf c name l s (off + d) =
+  match unpack_leaf host raw cf c name l s off with
+  | Ok (v, o', t) => Ok (v, o' + d, map (shift_item d) t)
+  | Exn x => Exn x
+  end.
+Proof.
+  intros host cf c name l s off Hl Ho. destruct l as [n sg fe dflt|size isc dflt|m incl dflt|r incl dflt|dflt];
+    cbn [unpack_leaf].
+  - rewrite int_unpack_pre by exact Ho. destruct (int_unpack n sg _ raw off) as [[x o1]|]; [|reflexivity].
+    cbn [map shift_item]. rewrite slice_pre by exact Ho. reflexivity.
+  - cbn [leaf_local] in Hl.
+    rewrite (local_eval_int_indep (mkctx (pre ++ raw) s (off + d)) (mkctx raw s off) size eq_refl Hl).
+    unfold bind. destruct (eval_int (mkctx raw s off) size) as [bc|x]; [|reflexivity].
+    rewrite data_sized_pre by exact Ho. destruct (data_sized raw off bc) as [[v o1]|]; reflexivity.
+  - rewrite data_marker_pre by exact Ho. destruct (data_marker raw off (lc_sbl cf) m incl) as [[v o1]|]; [|reflexivity].
+    cbn [map shift_item]. rewrite slice_pre by exact Ho. reflexivity.
+  - rewrite data_regex_pre by exact Ho. destruct (data_regex raw off (lc_sbl cf) r incl) as [[[v o1] dl]|]; [|reflexivity].
+    cbn [map shift_item]. rewrite slice_pre by exact Ho. destruct incl; reflexivity.
+  - rewrite data_eos_pre by exact Ho. destruct (data_eos raw off) as [v o1]. reflexivity.
+Qed.
+End PreKernels.
+
+(* moves relative to the packet or to the cursor *)
+Lemma align_to_shift : forall mv c start d,
+  align_to mv (c + d) (start + d) = option_map (fun o => o + d) (align_to mv c start).
+Proof.
+  intros mv c start d. unfold align_to. replace (c + d - (start + d)) with (c - start) by lia.
+  destruct (pymod (c - start) mv) as [r1|]; [|reflexivity].
+  destruct (pymod (mv - r1) mv) as [r2|]; cbn [option_map]; [f_equal; lia|reflexivity].
+Qed.
+
+Lemma move_raw_shift' : forall al r mv c ipp d, r <> RBegins ->
+  move_raw al r mv (c + d) (ipp + d) = option_map (fun o => o + d) (move_raw al r mv c ipp).
+Proof.
+  intros al r mv c ipp d Hr. unfold move_raw. destruct al; destruct r; try contradiction; cbn [align_start jump_to option_map].
+  - apply align_to_shift.
+  - apply align_to_shift.
+  - f_equal. lia.
+  - f_equal. lia.
+Qed.
+
+Lemma move_unpack_pre_ok : forall al r mv c ipp d o, r <> RBegins -> 0 <= d ->
+  move_unpack al r mv c ipp = Some o -> move_unpack al r mv (c + d) (ipp + d) = Some (o + d).
+Proof.
+  intros al r mv c ipp d o Hr Hd H. apply move_unpack_raw in H. destruct H as (H & Ho).
+  apply move_unpack_raw. rewrite (move_raw_shift' al r mv c ipp d Hr), H. split; [reflexivity|lia].
+Qed.
+
+Lemma move_unpack_fwd_some : forall al r mv c ipp, r <> RBegins -> 0 <= c -> 0 <= ipp ->
+  (if al : bool then 0 < mv else 0 <= mv) -> exists o, move_unpack al r mv c ipp = Some o.
+Proof.
+  intros al r mv c ipp Hr Hc Hi Hmv.
+  assert (exists o, move_raw al r mv c ipp = Some o /\ 0 <= o) as (o & E & Ho).
+  { unfold move_raw. destruct al.
+    - destruct (align_to_min mv c (align_start r c ipp) Hmv) as (k & E & Hk & _). exists (c + k). split; [exact E|lia].
+    - destruct r; try contradiction; cbn [jump_to]; eexists; (split; [reflexivity|lia]). }
+  exists o. apply move_unpack_raw. split; assumption.
+Qed.
+
+Lemma seq_align_1 : forall o, seq_align 1 o = Some o.
+Proof.
+  intros o. unfold seq_align, pymod. cbn [Z.eqb]. rewrite Z.mod_1_r. cbn. f_equal. lia.
+Qed.
+
+(* ------------------------------------------------------------------------------------------ *)
+(* a prefix before the input: the field interpreters                                          *)
+(* ------------------------------------------------------------------------------------------ *)
+
+Definition okf (r : fres) : Prop := exists s o t, r = FOk s o t.
+Definition okp (r : pres) : Prop := exists v e t, r = POk v e t.
+(* fwd = true: positioning only moves forwards, the two runs agree whatever happens;
+   fwd = false: they agree as long as the run on the bare input succeeds *)
+Definition cond (fwd : bool) (P : Prop) : Prop := fwd = true \/ P.
+
+Lemma cond_mono (fwd : bool) (P Q : Prop) : cond fwd P -> (P -> Q) -> cond fwd Q.
+Proof. intros [H|H] I; [left; exact H|right; exact (I H)]. Qed.
+
+Ltac okf_no H := destruct H as (? & ? & ? & H); discriminate H.
+
+Lemma struct_unpack_shift : forall ms chunk off s d,
+  struct_unpack ms chunk (off + d) s =
+  (fst (struct_unpack ms chunk off s), map (shift_item d) (snd (struct_unpack ms chunk off s))).
+Proof.
+  induction ms as [|m r IH]; intros chunk off s d; cbn [struct_unpack]; [reflexivity|].
+  replace (off + d + sm_size m) with (off + sm_size m + d) by lia. rewrite IH.
+  destruct (struct_unpack r (slice_from chunk (sm_size m)) (off + sm_size m) _) as [s1 t1]. reflexivity.
+Qed.
+
+Lemma gen_blocks_loops (P : cfield -> Prop) (host : bool) (cf : lconf) (vec : bool) : forall fs cur,
+  Forall P fs -> Forall (fun b => match b with BLoop f => P f | BStruct _ _ => True end) (gen_blocks host cf vec fs cur).
+Proof.
+  assert (forall cur : option (bool * list smember),
+          Forall (fun b => match b with BLoop f => P f | BStruct _ _ => True end)
+                 (match cur with Some (b, ms) => [BStruct b (rev ms)] | None => [] end)) as Hflush.
+  { intros [[b ms]|]; repeat constructor. }
+  induction fs as [|f r IH]; intros cur HF; cbn [gen_blocks]; [apply Hflush|].
+  inversion HF as [|f' r' Hf Hr]; subst.
+  destruct (fixity_of host cf f) as [m| |].
+  - destruct cur as [[b ms]|]; [|apply IH; exact Hr].
+    destruct (vec && Bool.eqb b (sm_big m)); [apply IH; exact Hr|].
+    apply Forall_app. split; [apply (Hflush (Some (b, ms)))|apply IH; exact Hr].
+  - apply Forall_app. split; [apply Hflush|]. constructor; [exact Hf|apply IH; exact Hr].
+  - apply Forall_app. split; [apply Hflush|]. constructor; [exact Hf|apply IH; exact Hr].
+Qed.
+
+Section Prefix.
+Variable host : bool.
+Variables pre raw : bytes.
+Variables rec0 rec1 : cid -> Z -> pres.
+Variable loop_fuel : nat.
+Variable fwd : bool.
+Notation d := (blen pre).
+Notation sh := (map (shift_item d)).
+Hypothesis Hrec : forall c o, 0 <= o -> cond fwd (okp (rec0 c o)) -> rec1 c (o + d) = shift_pres d (rec0 c o).
+Hypothesis Hrec_nn : forall c o v e t, 0 <= o -> rec0 c o = POk v e t -> 0 <= e.
+Hypothesis Hrec_loc : forall c o v e t, rec0 c o = POk v e t -> value_local v = true.
+
+Lemma Hrec_strict : forall c o v e t, 0 <= o -> rec0 c o = POk v e t -> 0 <= e /\ tr_ok raw False t.
+Proof. intros c o v e t Ho H. split; [exact (Hrec_nn _ _ _ _ _ Ho H)|intros []]. Qed.
+
+Lemma rec_match_pre : forall c' s name off, 0 <= off ->
+  cond fwd (okf (match rec0 c' off with
+                 | POk v o1 t1 => FOk (slot_set s name v) o1 t1 | PFail st => FFail st | PFuel => FFuel end)) ->
+  match rec1 c' (off + d) with
+  | POk v o1 t1 => FOk (slot_set s name v) o1 t1 | PFail st => FFail st | PFuel => FFuel end =
+  shift_fres d (match rec0 c' off with
+                | POk v o1 t1 => FOk (slot_set s name v) o1 t1 | PFail st => FFail st | PFuel => FFuel end).
+Proof.
+  intros c' s name off Ho Hc. rewrite Hrec; [destruct (rec0 c' off); reflexivity|exact Ho|].
+  apply (cond_mono _ _ _ Hc). intros Hk. destruct (rec0 c' off) as [v o1 t1| |]; [exists v, o1, t1; reflexivity|okf_no Hk|okf_no Hk].
+Qed.
+
+Lemma leaf_match_pre : forall cf c name l s off, leaf_local l = true -> 0 <= off ->
+  match unpack_leaf host (pre ++ raw) cf c name l s (off + d) with
+  | Ok (v, o', t) => FOk (slot_set s name v) o' t | Exn x => FExn x end =
+  shift_fres d (match unpack_leaf host raw cf c name l s off with
+                | Ok (v, o', t) => FOk (slot_set s name v) o' t | Exn x => FExn x end).
+Proof.
+  intros cf c name l s off Hl Ho. rewrite unpack_leaf_pre by assumption.
+  destruct (unpack_leaf host raw cf c name l s off) as [[[v o1] t1]|x]; reflexivity.
+Qed.
+
+Lemma unpack_elem_pre : forall cf c name e s off, elem_local e = true -> lslots_ok s -> 0 <= off ->
+  cond fwd (okf (unpack_elem host raw rec0 cf c name e s off)) ->
+  unpack_elem host (pre ++ raw) rec1 cf c name e s (off + d) = shift_fres d (unpack_elem host raw rec0 cf c name e s off).
+Proof.
+  intros cf c name e s off He Hs Ho Hc. destruct e as [l|c' proto|sel dflt]; cbn [unpack_elem elem_local] in *.
+  - apply leaf_match_pre; assumption.
+  - apply rec_match_pre; assumption.
+  - rewrite (local_eval_indep (mkctx (pre ++ raw) s (off + d)) (mkctx raw s off) sel eq_refl He).
+    destruct (eval (mkctx raw s off) sel) as [v|x] eqn:Ev; [|reflexivity].
+    pose proof (local_eval_ok (mkctx raw s off) sel v Hs He Ev) as Hv.
+    destruct v; try reflexivity.
+    + apply rec_match_pre; assumption.
+    + apply rec_match_pre; assumption.
+    + apply leaf_match_pre; assumption.
+Qed.
+
+Lemma unpack_elem_nn : forall cf c name e s off s' o' t, 0 <= off ->
+  unpack_elem host raw rec0 cf c name e s off = FOk s' o' t -> 0 <= o'.
+Proof.
+  intros cf c name e s off s' o' t Ho H.
+  exact (proj1 (unpack_elem_ok host raw rec0 False Hrec_strict _ _ _ _ _ _ _ _ _ Ho H)).
+Qed.
+
+Lemma unpack_elem_ls : forall cf c name e s off s' o' t, lslots_ok s ->
+  unpack_elem host raw rec0 cf c name e s off = FOk s' o' t -> lslots_ok s'.
+Proof. apply (unpack_elem_slots value_local); try vl_hyps. exact Hrec_loc. Qed.
+
+Lemma next_slots_ok : forall s1 i, lslots_ok s1 -> lslots_ok (append_to s1 (FN i) (elem_value s1 (FSeqElem i))).
+Proof.
+  intros s1 i Hs1. apply (append_to_ok value_local); [vl_hyps|exact Hs1|].
+  apply (elem_value_ok value_local); [vl_hyps|exact Hs1].
+Qed.
+
+Lemma unpack_count_pre : forall cf c i e, elem_local e = true -> forall k s off t, lslots_ok s -> 0 <= off ->
+  cond fwd (okf (unpack_count host raw rec0 cf c i e 1 k s off t)) ->
+  unpack_count host (pre ++ raw) rec1 cf c i e 1 k s (off + d) (sh t) =
+  shift_fres d (unpack_count host raw rec0 cf c i e 1 k s off t).
+Proof.
+  intros cf c i e He. induction k as [|k IH]; intros s off t Hs Ho Hc; cbn [unpack_count]; [reflexivity|].
+  cbn [unpack_count] in Hc. rewrite !seq_align_1 in *.
+  assert (cond fwd (okf (unpack_elem host raw rec0 cf c (FSeqElem i) e s off))) as Hc0.
+  { apply (cond_mono _ _ _ Hc). intros Hk.
+    destruct (unpack_elem host raw rec0 cf c (FSeqElem i) e s off) as [s1 o2 t1| | |];
+      [exists s1, o2, t1; reflexivity|okf_no Hk..]. }
+  rewrite (unpack_elem_pre _ _ _ _ _ _ He Hs Ho Hc0).
+  destruct (unpack_elem host raw rec0 cf c (FSeqElem i) e s off) as [s1 o2 t1| | |] eqn:E; cbn [shift_fres]; try reflexivity.
+  rewrite <- map_app. apply IH; [|exact (unpack_elem_nn _ _ _ _ _ _ _ _ _ Ho E)|exact Hc].
+  apply next_slots_ok. exact (unpack_elem_ls _ _ _ _ _ _ _ _ _ Hs E).
+Qed.
+
+Lemma unpack_until_pre : forall cf c i e until, elem_local e = true -> expr_local until = true ->
+  forall fuel s off t, lslots_ok s -> 0 <= off ->
+  cond fwd (okf (unpack_until host raw rec0 fuel cf c i e 1 until s off t)) ->
+  unpack_until host (pre ++ raw) rec1 fuel cf c i e 1 until s (off + d) (sh t) =
+  shift_fres d (unpack_until host raw rec0 fuel cf c i e 1 until s off t).
+Proof.
+  intros cf c i e until He Hu. induction fuel as [|fuel IH]; intros s off t Hs Ho Hc; cbn [unpack_until] in *;
+    rewrite (local_eval_indep (mkctx (pre ++ raw) s (off + d)) (mkctx raw s off) until eq_refl Hu);
+    (destruct (eval (mkctx raw s off) until) as [v|x]; [|reflexivity]);
+    (destruct (truth v); [reflexivity|]); [reflexivity|].
+  rewrite !seq_align_1 in *.
+  assert (cond fwd (okf (unpack_elem host raw rec0 cf c (FSeqElem i) e s off))) as Hc0.
+  { apply (cond_mono _ _ _ Hc). intros Hk.
+    destruct (unpack_elem host raw rec0 cf c (FSeqElem i) e s off) as [s1 o2 t1| | |];
+      [exists s1, o2, t1; reflexivity|okf_no Hk..]. }
+  rewrite (unpack_elem_pre _ _ _ _ _ _ He Hs Ho Hc0).
+  destruct (unpack_elem host raw rec0 cf c (FSeqElem i) e s off) as [s1 o2 t1| | |] eqn:E; cbn [shift_fres]; try reflexivity.
+  rewrite <- map_app. apply IH; [|exact (unpack_elem_nn _ _ _ _ _ _ _ _ _ Ho E)|exact Hc].
+  apply next_slots_ok. exact (unpack_elem_ls _ _ _ _ _ _ _ _ _ Hs E).
+Qed.
+
+Lemma move_tail_pre : forall (al : bool) rf z s off ipp, rf <> RBegins -> 0 <= off -> 0 <= ipp ->
+  (fwd = true -> if al then 0 < z else 0 <= z) ->
+  cond fwd (okf (if al && (z =? 0) then FExn ZeroDivisionError
+                 else match move_unpack al rf z off ipp with
+                      | Some o' => FOk s o' [TMove o'] | None => FExn GenericError end)) ->
+  (if al && (z =? 0) then FExn ZeroDivisionError
+   else match move_unpack al rf z (off + d) (ipp + d) with
+        | Some o' => FOk s o' [TMove o'] | None => FExn GenericError end) =
+  shift_fres d (if al && (z =? 0) then FExn ZeroDivisionError
+                else match move_unpack al rf z off ipp with
+                     | Some o' => FOk s o' [TMove o'] | None => FExn GenericError end).
+Proof.
+  intros al rf z s off ipp Hr Ho Hi Hz Hc. destruct (al && (z =? 0)); [reflexivity|].
+  destruct (move_unpack al rf z off ipp) as [o|] eqn:M.
+  - rewrite (move_unpack_pre_ok al rf z off ipp d o Hr (blen_nonneg pre) M). reflexivity.
+  - exfalso. destruct Hc as [Hf|Hk]; [|okf_no Hk].
+    destruct (move_unpack_fwd_some al rf z off ipp Hr Ho Hi (Hz Hf)) as (o & E). rewrite E in M. discriminate M.
+Qed.
+
+Lemma unpack_count_nn : forall cf c i e al k s off t s' o' t', 0 < al -> 0 <= off ->
+  unpack_count host raw rec0 cf c i e al k s off t = FOk s' o' t' -> 0 <= o'.
+Proof.
+  intros cf c i e al k s off t s' o' t' Hal Ho H.
+  refine (proj1 (unpack_count_ok host raw rec0 False Hrec_strict _ _ _ _ _ Hal _ _ _ _ _ _ _ Ho _ H)). intros [].
+Qed.
+
+Lemma unpack_count_ls : forall cf c i e al k s off t s' o' t', lslots_ok s ->
+  unpack_count host raw rec0 cf c i e al k s off t = FOk s' o' t' -> lslots_ok s'.
+Proof. apply (unpack_count_slots value_local); try vl_hyps. exact Hrec_loc. Qed.
+
+Lemma unpack_field_pre : forall cf c f s off ipp, cfield_local_gen fwd f = true -> cfield_wf f = true ->
+  lslots_ok s -> 0 <= off -> 0 <= ipp ->
+  cond fwd (okf (unpack_field host raw rec0 loop_fuel cf c f s off ipp)) ->
+  unpack_field host (pre ++ raw) rec1 loop_fuel cf c f s (off + d) (ipp + d) =
+  shift_fres d (unpack_field host raw rec0 loop_fuel cf c f s off ipp).
+Proof.
+  intros cf c f s off ipp Hl Hwf Hs Ho Hi Hc.
+  destruct f as [i arg rf al|i e|i first last run0 shift mask nbytes dflt|i e count until when dflt al|i e when dflt|i];
+    cbn [unpack_field cfield_local_gen] in *.
+  - (* CMove *)
+    apply andb_true_iff in Hl. destruct Hl as (Hl & Hfw). apply andb_true_iff in Hl. destruct Hl as (Harg & Hrf).
+    assert (rf <> RBegins) as Hr by (intros ->; discriminate Hrf).
+    destruct arg as [z|g|e].
+    + apply move_tail_pre; try assumption. intros Hf. rewrite Hf in Hfw. cbn [negb orb move_forward] in Hfw.
+      destruct al; lia.
+    + destruct (slot_get s g) as [v|]; [|reflexivity]. destruct (as_int v) as [z|]; [|reflexivity].
+      apply move_tail_pre; try assumption. intros Hf. rewrite Hf in Hfw. discriminate Hfw.
+    + cbn [marg_local] in Harg.
+      rewrite (local_eval_int_indep (mkctx (pre ++ raw) s (off + d)) (mkctx raw s off) e eq_refl Harg).
+      destruct (eval_int (mkctx raw s off) e) as [z|x]; [|reflexivity].
+      apply move_tail_pre; try assumption. intros Hf. rewrite Hf in Hfw. discriminate Hfw.
+  - (* CElem *) apply unpack_elem_pre; assumption.
+  - (* CBits *)
+    destruct first.
+    + rewrite int_unpack_pre by exact Ho. destruct (int_unpack nbytes false true raw off) as [[x o1]|]; [|reflexivity].
+      destruct (slot_get _ (FBitsI run0)) as [[]|]; try reflexivity.
+      cbn [shift_fres map shift_item]. rewrite slice_pre by exact Ho. reflexivity.
+    + destruct (slot_get s (FBitsI run0)) as [[]|]; reflexivity.
+  - (* CSeq *)
+    apply andb_true_iff in Hl. destruct Hl as (Hl & Hal). apply andb_true_iff in Hl. destruct Hl as (Hl & Hwhen).
+    apply andb_true_iff in Hl. destruct Hl as (Hl & Huntil). apply andb_true_iff in Hl. destruct Hl as (He & Hcount).
+    apply Z.eqb_eq in Hal. subst al.
+    assert (lslots_ok (slot_set s (FN i) (VList []))) as Hs0 by (apply slot_set_ok; [exact Hs|reflexivity]).
+    set (s0 := slot_set s (FN i) (VList [])) in *.
+    assert (match count with Some ce => eval_int (mkctx (pre ++ raw) s0 (off + d)) ce | None => Ok 1 end =
+            match count with Some ce => eval_int (mkctx raw s0 off) ce | None => Ok 1 end) as Ecount.
+    { destruct count as [ce|]; [|reflexivity]. apply local_eval_int_indep; [reflexivity|exact Hcount]. }
+    rewrite Ecount. clear Ecount.
+    destruct (match count with Some ce => eval_int (mkctx raw s0 off) ce | None => Ok 1 end) as [n|x]; [|reflexivity].
+    assert (match when with
+            | Some w => if n <=? 0 then Ok true
+                        else match eval (mkctx (pre ++ raw) s0 (off + d)) w with
+                             | Ok v => Ok (negb (truth v)) | Exn x => Exn x end
+            | None => Ok false end =
+            match when with
+            | Some w => if n <=? 0 then Ok true
+                        else match eval (mkctx raw s0 off) w with
+                             | Ok v => Ok (negb (truth v)) | Exn x => Exn x end
+            | None => Ok false end) as Eskip.
+    { destruct when as [w|]; [|reflexivity]. destruct (n <=? 0); [reflexivity|].
+      rewrite (local_eval_indep (mkctx (pre ++ raw) s0 (off + d)) (mkctx raw s0 off) w eq_refl Hwhen). reflexivity. }
+    rewrite Eskip. clear Eskip.
+    match goal with |- match ?m with Ok _ => _ | Exn _ => _ end = _ => destruct m as [[|]|x] end; try reflexivity.
+    assert (cond fwd (okf (unpack_count host raw rec0 cf c i e 1 (Z.to_nat n) s0 off []))) as Hc0.
+    { apply (cond_mono _ _ _ Hc). intros Hk.
+      destruct (unpack_count host raw rec0 cf c i e 1 (Z.to_nat n) s0 off []) as [s1 o1 t1| | |];
+        [exists s1, o1, t1; reflexivity|okf_no Hk..]. }
+    pose proof (unpack_count_pre cf c i e He (Z.to_nat n) s0 off [] Hs0 Ho Hc0) as Ec. cbn [map] in Ec. rewrite Ec. clear Ec.
+    destruct (unpack_count host raw rec0 cf c i e 1 (Z.to_nat n) s0 off []) as [s1 o1 t1| | |] eqn:C;
+      cbn [shift_fres]; try reflexivity.
+    destruct until as [u|]; [|reflexivity]. cbn [oexpr_local] in Huntil.
+    apply unpack_until_pre; try assumption.
+    + exact (unpack_count_ls _ _ _ _ _ _ _ _ _ _ _ _ Hs0 C).
+    + refine (unpack_count_nn _ _ _ _ _ _ _ _ _ _ _ _ _ Ho C). lia.
+  - (* COpt *)
+    apply andb_true_iff in Hl. destruct Hl as (He & Hwhen).
+    rewrite (local_eval_indep (mkctx (pre ++ raw) s (off + d)) (mkctx raw s off) when eq_refl Hwhen).
+    destruct (eval (mkctx raw s off) when) as [v|x]; [|reflexivity].
+    destruct (truth v); [|reflexivity].
+    assert (cond fwd (okf (unpack_elem host raw rec0 cf c (FOptElem i) e s off))) as Hc0.
+    { apply (cond_mono _ _ _ Hc). intros Hk.
+      destruct (unpack_elem host raw rec0 cf c (FOptElem i) e s off) as [s1 o2 t1| | |];
+        [exists s1, o2, t1; reflexivity|okf_no Hk..]. }
+    rewrite (unpack_elem_pre _ _ _ _ _ _ He Hs Ho Hc0).
+    destruct (unpack_elem host raw rec0 cf c (FOptElem i) e s off) as [s1 o2 t1| | |]; reflexivity.
+  - (* CEm *) reflexivity.
+Qed.
+
+Lemma unpack_field_nn : forall cf c f s off ipp s' o' t, cfield_wf f = true -> 0 <= off ->
+  unpack_field host raw rec0 loop_fuel cf c f s off ipp = FOk s' o' t -> 0 <= o'.
+Proof.
+  intros cf c f s off ipp s' o' t Hwf Ho H.
+  exact (proj1 (unpack_field_ok host raw rec0 loop_fuel False Hrec_strict _ _ _ _ _ _ _ _ _ Hwf Ho H)).
+Qed.
+
+Lemma unpack_field_ls : forall cf c f s off ipp s' o' t, lslots_ok s ->
+  unpack_field host raw rec0 loop_fuel cf c f s off ipp = FOk s' o' t -> lslots_ok s'.
+Proof. apply (unpack_field_slots value_local); try vl_hyps. exact Hrec_loc. Qed.
+
+Lemma shift_stack_app : forall st st', shift_stack d (st ++ st') = shift_stack d st ++ shift_stack d st'.
+Proof. intros st st'. unfold shift_stack. apply map_app. Qed.
+
+(* one step of the field loop, common to the generic loop and to the generated code *)
+Lemma field_step_pre : forall cf c f s off ipp (K0 K1 : slots -> Z -> trace -> pres),
+  cfield_local_gen fwd f = true -> cfield_wf f = true -> lslots_ok s -> 0 <= off -> 0 <= ipp ->
+  (forall s1 o1 t1, lslots_ok s1 -> 0 <= o1 -> cond fwd (okp (K0 s1 o1 t1)) -> K1 s1 (o1 + d) (sh t1) = shift_pres d (K0 s1 o1 t1)) ->
+  cond fwd (okp (match unpack_field host raw rec0 loop_fuel cf c f s off ipp with
+                 | FOk s1 o1 t1 => K0 s1 o1 t1
+                 | FExn _ => PFail [(off, cf_name f, c)]
+                 | FFail st => PFail (st ++ [(off, cf_name f, c)])
+                 | FFuel => PFuel end)) ->
+  match unpack_field host (pre ++ raw) rec1 loop_fuel cf c f s (off + d) (ipp + d) with
+  | FOk s1 o1 t1 => K1 s1 o1 t1
+  | FExn _ => PFail [(off + d, cf_name f, c)]
+  | FFail st => PFail (st ++ [(off + d, cf_name f, c)])
+  | FFuel => PFuel end =
+  shift_pres d (match unpack_field host raw rec0 loop_fuel cf c f s off ipp with
+                | FOk s1 o1 t1 => K0 s1 o1 t1
+                | FExn _ => PFail [(off, cf_name f, c)]
+                | FFail st => PFail (st ++ [(off, cf_name f, c)])
+                | FFuel => PFuel end).
+Proof.
+  intros cf c f s off ipp K0 K1 Hl Hwf Hs Ho Hi HK Hc.
+  assert (cond fwd (okf (unpack_field host raw rec0 loop_fuel cf c f s off ipp))) as Hc0.
+  { apply (cond_mono _ _ _ Hc). intros Hk.
+    destruct (unpack_field host raw rec0 loop_fuel cf c f s off ipp) as [s1 o1 t1| | |];
+      [exists s1, o1, t1; reflexivity|okf_no Hk..]. }
+  rewrite (unpack_field_pre _ _ _ _ _ _ Hl Hwf Hs Ho Hi Hc0).
+  destruct (unpack_field host raw rec0 loop_fuel cf c f s off ipp) as [s1 o1 t1|x|st|] eqn:E; cbn [shift_fres shift_pres].
+  - apply HK; [exact (unpack_field_ls _ _ _ _ _ _ _ _ _ Hs E)|exact (unpack_field_nn _ _ _ _ _ _ _ _ _ Hwf Ho E)|exact Hc].
+  - reflexivity.
+  - rewrite shift_stack_app. reflexivity.
+  - reflexivity.
+Qed.
+
+Lemma unpack_fields_pre : forall cf c fs s off ipp t,
+  forallb (cfield_local_gen fwd) fs = true -> forallb cfield_wf fs = true -> lslots_ok s -> 0 <= off -> 0 <= ipp ->
+  cond fwd (okp (unpack_fields host raw rec0 loop_fuel cf c fs s off ipp t)) ->
+  unpack_fields host (pre ++ raw) rec1 loop_fuel cf c fs s (off + d) (ipp + d) (sh t) =
+  shift_pres d (unpack_fields host raw rec0 loop_fuel cf c fs s off ipp t).
+Proof.
+  intros cf c. induction fs as [|f r IH]; intros s off ipp t Hl Hwf Hs Ho Hi Hc; cbn [unpack_fields]; [reflexivity|].
+  cbn [forallb] in Hl, Hwf. apply andb_true_iff in Hl. apply andb_true_iff in Hwf.
+  destruct Hl as (Hlf & Hlr). destruct Hwf as (Hwf & Hwr).
+  apply (field_step_pre cf c f s off ipp
+           (fun s1 o1 t1 => unpack_fields host raw rec0 loop_fuel cf c r s1 o1 ipp (t ++ t1))
+           (fun s1 o1 t1 => unpack_fields host (pre ++ raw) rec1 loop_fuel cf c r s1 o1 (ipp + d) (sh t ++ t1)));
+    try assumption.
+  intros s1 o1 t1 Hs1 Ho1 Hc1. rewrite <- map_app. apply IH; assumption.
+Qed.
+
+Definition block_local (b : block) : Prop :=
+  match b with BLoop f => cfield_local_gen fwd f = true /\ cfield_wf f = true | BStruct _ _ => True end.
+
+Lemma unpack_blocks_pre : forall cf c bs s off ipp t, Forall block_local bs -> lslots_ok s -> 0 <= off -> 0 <= ipp ->
+  cond fwd (okp (unpack_blocks host raw rec0 loop_fuel cf c bs s off ipp t)) ->
+  unpack_blocks host (pre ++ raw) rec1 loop_fuel cf c bs s (off + d) (ipp + d) (sh t) =
+  shift_pres d (unpack_blocks host raw rec0 loop_fuel cf c bs s off ipp t).
+Proof.
+  intros cf c. induction bs as [|b r IH]; intros s off ipp t Hl Hs Ho Hi Hc; cbn [unpack_blocks]; [reflexivity|].
+  inversion Hl as [|b' r' Hb Hr]; subst. destruct b as [big ms|f].
+  - cbn [unpack_blocks] in Hc. replace (off + d + run_size ms) with (off + run_size ms + d) by lia.
+    rewrite slice_pre by exact Ho.
+    destruct (Z.eqb_spec (blen (slice raw off (off + run_size ms))) (run_size ms)) as [El|El]; [|reflexivity].
+    rewrite struct_unpack_shift.
+    destruct (struct_unpack ms (slice raw off (off + run_size ms)) off s) as [s1 t1] eqn:S. cbn [fst snd].
+    rewrite <- map_app. pose proof (blen_nonneg (slice raw off (off + run_size ms))) as Hn.
+    apply IH; [exact Hr| |lia|exact Hi|exact Hc].
+    refine (struct_unpack_slots value_local _ _ _ _ _ _ _ _ _ Hs S); vl_hyps.
+  - cbn [unpack_blocks] in Hc. destruct Hb as (Hlf & Hwf).
+    apply (field_step_pre cf c f s off ipp
+             (fun s1 o1 t1 => unpack_blocks host raw rec0 loop_fuel cf c r s1 o1 ipp (t ++ t1))
+             (fun s1 o1 t1 => unpack_blocks host (pre ++ raw) rec1 loop_fuel cf c r s1 o1 (ipp + d) (sh t ++ t1)));
+      try assumption.
+    intros s1 o1 t1 Hs1 Ho1 Hc1. rewrite <- map_app. apply IH; assumption.
+Qed.
+End Prefix.
+
+(* ------------------------------------------------------------------------------------------ *)
+(* a prefix before the input: whole packets                                                   *)
+(* ------------------------------------------------------------------------------------------ *)
+
+Definition ct_local_gen (fwd : bool) (ct : ctab) : bool :=
+  forallb (fun ck => forallb (cfield_local_gen fwd) (cc_fields (snd ck))) ct.
+
+Lemma forallb_Forall_and (fwd : bool) : forall fs, forallb (cfield_local_gen fwd) fs = true -> forallb cfield_wf fs = true ->
+  Forall (fun f => cfield_local_gen fwd f = true /\ cfield_wf f = true) fs.
+Proof.
+  induction fs as [|f r IH]; intros Hl Hw; [constructor|]. cbn [forallb] in Hl, Hw.
+  apply andb_true_iff in Hl. apply andb_true_iff in Hw. constructor; [split; [apply Hl|apply Hw]|apply IH; [apply Hl|apply Hw]].
+Qed.
+
+Lemma unpack_any_prefix_gen (fwd : bool) : forall host ct pre raw, ct_wf ct = true -> ct_local_gen fwd ct = true ->
+  forall fuel c off, 0 <= off -> cond fwd (okp (unpack_any fuel host ct raw c off)) ->
+  unpack_any fuel host ct (pre ++ raw) c (off + blen pre) = shift_pres (blen pre) (unpack_any fuel host ct raw c off).
+Proof.
+  intros host ct pre raw Hwf Hloc. induction fuel as [|fuel IH]; intros c off Ho Hc; cbn [unpack_any] in *; [reflexivity|].
+  destruct (ct_get ct c) as [k|] eqn:K; [|reflexivity].
+  pose proof (ct_get_forallb class_wf ct c k Hwf K) as Hk. unfold class_wf in Hk.
+  pose proof (ct_get_forallb (fun k => forallb (cfield_local_gen fwd) (cc_fields k)) ct c k Hloc K) as Hl. cbn beta in Hl.
+  assert (forall c0 o v e t, 0 <= o -> unpack_any fuel host ct raw c0 o = POk v e t -> 0 <= e) as Hnn.
+  { intros c0 o v e t Ho0 H0. exact (unpack_any_nonneg _ _ _ _ _ _ _ _ _ Hwf Ho0 H0). }
+  assert (forall c0 o v e t, unpack_any fuel host ct raw c0 o = POk v e t -> value_local v = true) as Hvl.
+  { intros c0 o v e t H0. exact (local_unpack_any_vl _ _ _ _ _ _ _ _ _ H0). }
+  destruct (cc_gen_unpack k).
+  - apply (unpack_blocks_pre host pre raw (unpack_any fuel host ct raw) (unpack_any fuel host ct (pre ++ raw)) fuel fwd
+             IH Hnn Hvl (cc_conf k) c _ [] off off []); try assumption; [|reflexivity].
+    eapply Forall_impl; [|apply gen_blocks_loops; exact (forallb_Forall_and fwd _ Hl Hk)].
+    intros [big ms|f] Hb; [exact I|exact Hb].
+  - apply (unpack_fields_pre host pre raw (unpack_any fuel host ct raw) (unpack_any fuel host ct (pre ++ raw)) fuel fwd
+             IH Hnn Hvl (cc_conf k) c _ [] off off []); try assumption. reflexivity.
+Qed.
+
+Lemma unpack_pkt_nonneg : forall fuel host ct raw c off v e t, ct_wf ct = true -> 0 <= off ->
+  unpack_pkt fuel host ct raw c off = POk v e t -> 0 <= e.
+Proof. intros fuel host ct raw c off v e t Hwf Ho H. exact (proj1 (unpack_pkt_strict _ _ _ _ _ _ _ _ _ Hwf Ho H)). Qed.
+
+Lemma unpack_pkt_prefix_gen (fwd : bool) : forall host ct pre raw, ct_wf ct = true -> ct_local_gen fwd ct = true ->
+  forall fuel c off, 0 <= off -> cond fwd (okp (unpack_pkt fuel host ct raw c off)) ->
+  unpack_pkt fuel host ct (pre ++ raw) c (off + blen pre) = shift_pres (blen pre) (unpack_pkt fuel host ct raw c off).
+Proof.
+  intros host ct pre raw Hwf Hloc. induction fuel as [|fuel IH]; intros c off Ho Hc; cbn [unpack_pkt] in *; [reflexivity|].
+  destruct (ct_get ct c) as [k|] eqn:K; [|reflexivity].
+  pose proof (ct_get_forallb class_wf ct c k Hwf K) as Hk. unfold class_wf in Hk.
+  pose proof (ct_get_forallb (fun k => forallb (cfield_local_gen fwd) (cc_fields k)) ct c k Hloc K) as Hl. cbn beta in Hl.
+  assert (forall c0 o v e t, 0 <= o -> unpack_pkt fuel host ct raw c0 o = POk v e t -> 0 <= e) as Hnn.
+  { intros c0 o v e t Ho0 H0. exact (unpack_pkt_nonneg _ _ _ _ _ _ _ _ _ Hwf Ho0 H0). }
+  assert (forall c0 o v e t, unpack_pkt fuel host ct raw c0 o = POk v e t -> value_local v = true) as Hvl.
+  { intros c0 o v e t H0. exact (local_unpack_pkt_vl _ _ _ _ _ _ _ _ _ H0). }
+  apply (unpack_fields_pre host pre raw (unpack_pkt fuel host ct raw) (unpack_pkt fuel host ct (pre ++ raw)) fuel fwd
+           IH Hnn Hvl (cc_conf k) c _ [] off off []); try assumption. reflexivity.
+Qed.
+
+Theorem unpack_any_prefix : forall fuel host ct pre raw c off,
+  ct_wf ct = true -> ct_local ct = true -> 0 <= off ->
+  unpack_any fuel host ct (pre ++ raw) c (blen pre + off) = shift_pres (blen pre) (unpack_any fuel host ct raw c off).
+Proof.
+  intros fuel host ct pre raw c off Hwf Hloc Ho. rewrite (Z.add_comm (blen pre) off).
+  apply (unpack_any_prefix_gen true); [exact Hwf|exact Hloc|exact Ho|left; reflexivity].
+Qed.
+
+Theorem unpack_pkt_prefix : forall fuel host ct pre raw c off,
+  ct_wf ct = true -> ct_local ct = true -> 0 <= off ->
+  unpack_pkt fuel host ct (pre ++ raw) c (blen pre + off) = shift_pres (blen pre) (unpack_pkt fuel host ct raw c off).
+Proof.
+  intros fuel host ct pre raw c off Hwf Hloc Ho. rewrite (Z.add_comm (blen pre) off).
+  apply (unpack_pkt_prefix_gen true); [exact Hwf|exact Hloc|exact Ho|left; reflexivity].
+Qed.
+
+Theorem unpack_any_prefix_ok : forall fuel host ct pre raw c off v e t,
+  ct_wf ct = true -> ct_local_weak ct = true -> 0 <= off ->
+  unpack_any fuel host ct raw c off = POk v e t ->
+  unpack_any fuel host ct (pre ++ raw) c (blen pre + off) = POk v (e + blen pre) (map (shift_item (blen pre)) t).
+Proof.
+  intros fuel host ct pre raw c off v e t Hwf Hloc Ho H. rewrite (Z.add_comm (blen pre) off).
+  rewrite (unpack_any_prefix_gen false host ct pre raw Hwf Hloc fuel c off Ho); [rewrite H; reflexivity|].
+  right. exists v, e, t. exact H.
+Qed.
+
+(* the same for the generic loop *)
+Theorem unpack_pkt_prefix_ok : forall fuel host ct pre raw c off v e t,
+  ct_wf ct = true -> ct_local_weak ct = true -> 0 <= off ->
+  unpack_pkt fuel host ct raw c off = POk v e t ->
+  unpack_pkt fuel host ct (pre ++ raw) c (blen pre + off) = POk v (e + blen pre) (map (shift_item (blen pre)) t).
+Proof.
+  intros fuel host ct pre raw c off v e t Hwf Hloc Ho H. rewrite (Z.add_comm (blen pre) off).
+  rewrite (unpack_pkt_prefix_gen false host ct pre raw Hwf Hloc fuel c off Ho); [rewrite H; reflexivity|].
+  right. exists v, e, t. exact H.
+Qed.
+
+(* ------------------------------------------------------------------------------------------ *)
+(* bytes after the input: slices and kernels                                                  *)
+(* ------------------------------------------------------------------------------------------ *)
+
+(* a part of a slice that came out whole is not affected by what follows the input *)
+Lemma slice_post_le (raw post : bytes) (a b e : Z) : 0 <= a -> b <= e -> blen (slice raw a e) = e - a ->
+  slice (raw ++ post) a b = slice raw a b.
+Proof.
+  intros Ha Hbe Hl. destruct (Z_le_gt_dec b a) as [Hba|Hba]; [rewrite !slice_empty by exact Hba; reflexivity|].
+  apply slice_app_l; [exact Ha|]. rewrite blen_slice in Hl by exact Ha. lia.
+Qed.
+
+Lemma slice_post_full (raw post : bytes) (a e : Z) : 0 <= a -> blen (slice raw a e) = e - a ->
+  slice (raw ++ post) a e = slice raw a e.
+Proof. intros Ha Hl. apply (slice_post_le raw post a e e Ha (Z.le_refl e) Hl). Qed.
+
+Lemma find_post : forall hay x m c, find hay m = Some c -> find (hay ++ x) m = Some c.
+Proof.
+  intros hay x m c H. destruct (find_least _ _ _ H) as (Hocc & Hmin).
+  destruct (find_complete (hay ++ x) m c (occurs_at_app_r m hay x c Hocc)) as (i & Hi & Hle).
+  destruct (Z.eq_dec i c) as [->|Hne]; [exact Hi|exfalso].
+  destruct (find_least _ _ _ Hi) as (Hocci & _). destruct Hocc as (Hc0 & Hcl & _).
+  apply (Hmin i); [destruct Hocci as (A & _); lia|]. apply (occurs_at_app_l m hay x i Hocci). lia.
+Qed.
+
+Section PostKernels.
+Variables raw post : bytes.
+
+Lemma window_post : forall off sbl, exists x, window (raw ++ post) off sbl = window raw off sbl ++ x.
+Proof.
+  intros off sbl.
+  assert (exists x, slice_from (raw ++ post) off = slice_from raw off ++ x) as Hsf.
+  { unfold slice_from. rewrite skipn_app. eexists. reflexivity. }
+  unfold window. destruct sbl as [l|]; [destruct (l =? 0)|]; try exact Hsf.
+  unfold slice. rewrite skipn_app, firstn_app. eexists. reflexivity.
+Qed.
+
+Lemma int_unpack_post : forall n s big off v o', 0 <= off -> int_unpack n s big raw off = Some (v, o') ->
+  int_unpack n s big (raw ++ post) off = Some (v, o') /\ slice (raw ++ post) off o' = slice raw off o'.
+Proof.
+  intros n s big off v o' Ho H. destruct (int_unpack_some _ _ _ _ _ _ _ H) as (-> & Hl & Hd).
+  assert (slice (raw ++ post) off (off + n) = slice raw off (off + n)) as E by (apply slice_post_full; [exact Ho|lia]).
+  split; [|exact E]. unfold int_unpack. rewrite E, Hd. reflexivity.
+Qed.
+
+Lemma data_sized_post : forall off bc v o', 0 <= off -> data_sized raw off bc = Some (v, o') ->
+  data_sized (raw ++ post) off bc = Some (v, o').
+Proof.
+  intros off bc v o' Ho H. unfold data_sized, data_next in *.
+  destruct (data_short (blen (slice raw off (off + bc))) bc) eqn:S; [discriminate H|].
+  unfold data_short in S. apply negb_false_iff, Z.eqb_eq in S.
+  rewrite (slice_post_full raw post off (off + bc) Ho) by lia.
+  unfold data_short. rewrite S, Z.eqb_refl. exact H.
+Qed.
+
+Lemma data_marker_post : forall off sbl m incl v o', 0 <= off -> data_marker raw off sbl m incl = Some (v, o') ->
+  data_marker (raw ++ post) off sbl m incl = Some (v, o') /\ slice (raw ++ post) off o' = slice raw off o'.
+Proof.
+  intros off sbl m incl v o' Ho H. destruct (data_marker_raw _ _ _ _ _ _ _ Ho H) as (k & Hk & Ho' & Hl & Hv & _).
+  pose proof (blen_nonneg m) as Hm.
+  assert (forall b, b <= o' -> slice (raw ++ post) off b = slice raw off b) as Hsl.
+  { intros b Hb. apply (slice_post_le raw post off b o' Ho Hb). lia. }
+  split; [|apply Hsl; lia].
+  apply data_marker_ok in H; [|exact Ho]. destruct H as (c & Hf & Ho'' & Hv'). assert (c = k) as -> by lia.
+  destruct (window_post off sbl) as (x & Hw). unfold data_marker. rewrite Hw, (find_post _ x _ _ Hf).
+  rewrite Hsl by (destruct incl; cbn [marker_count]; lia). f_equal. f_equal.
+  - rewrite Hv'. destruct incl; reflexivity.
+  - destruct incl; cbn [marker_count marker_extra]; lia.
+Qed.
+
+Lemma unpack_leaf_post : forall host cf c name l s off r, leaf_closed_rec l = true -> 0 <= off ->
+  unpack_leaf host raw cf c name l s off = Ok r -> unpack_leaf host (raw ++ post) cf c name l s off = Ok r.
+Proof.
+  intros host cf c name l s off r Hl Ho H. destruct l as [n sg fe dflt|size isc dflt|m incl dflt|rx incl dflt|dflt];
+    cbn [leaf_closed_rec] in Hl; try discriminate Hl; cbn [unpack_leaf] in *.
+  - destruct (int_unpack n sg _ raw off) as [[x o1]|] eqn:E; [|discriminate H].
+    destruct (int_unpack_post _ _ _ _ _ _ Ho E) as (E1 & E2). rewrite E1, E2. exact H.
+  - rewrite (closed_eval_int_indep (mkctx (raw ++ post) s off) (mkctx raw s off) size eq_refl eq_refl Hl).
+    unfold bind in *. destruct (eval_int (mkctx raw s off) size) as [bc|x]; [|discriminate H].
+    destruct (data_sized raw off bc) as [[v o1]|] eqn:E; [|discriminate H].
+    rewrite (data_sized_post _ _ _ _ Ho E). exact H.
+  - destruct (data_marker raw off (lc_sbl cf) m incl) as [[v o1]|] eqn:E; [|discriminate H].
+    destruct (data_marker_post _ _ _ _ _ _ Ho E) as (E1 & E2). rewrite E1, E2. exact H.
+Qed.
+End PostKernels.
+
+(* ------------------------------------------------------------------------------------------ *)
+(* bytes after the input: the field interpreters                                              *)
+(* ------------------------------------------------------------------------------------------ *)
+
+Section Suffix.
+Variable host : bool.
+Variables raw post : bytes.
+Variables rec0 rec1 : cid -> Z -> pres.
+Variable loop_fuel : nat.
+Hypothesis Hrec : forall c o v e t, 0 <= o -> rec0 c o = POk v e t -> rec1 c o = POk v e t.
+Hypothesis Hrec_nn : forall c o v e t, 0 <= o -> rec0 c o = POk v e t -> 0 <= e.
+Hypothesis Hrec_cl : forall c o v e t, rec0 c o = POk v e t -> value_closed v = true.
+
+Lemma Hrec_strict' : forall c o v e t, 0 <= o -> rec0 c o = POk v e t -> 0 <= e /\ tr_ok raw False t.
+Proof. intros c o v e t Ho H. split; [exact (Hrec_nn _ _ _ _ _ Ho H)|intros []]. Qed.
+
+Lemma rec_match_post : forall c' s name off s' o' t, 0 <= off ->
+  match rec0 c' off with
+  | POk v o1 t1 => FOk (slot_set s name v) o1 t1 | PFail st => FFail st | PFuel => FFuel end = FOk s' o' t ->
+  match rec1 c' off with
+  | POk v o1 t1 => FOk (slot_set s name v) o1 t1 | PFail st => FFail st | PFuel => FFuel end = FOk s' o' t.
+Proof.
+  intros c' s name off s' o' t Ho H. destruct (rec0 c' off) as [v o1 t1| |] eqn:E; try discriminate H.
+  rewrite (Hrec _ _ _ _ _ Ho E). exact H.
+Qed.
+
+Lemma leaf_match_post : forall cf c name l s off s' o' t, leaf_closed_rec l = true -> 0 <= off ->
+  match unpack_leaf host raw cf c name l s off with
+  | Ok (v, o1, t1) => FOk (slot_set s name v) o1 t1 | Exn x => FExn x end = FOk s' o' t ->
+  match unpack_leaf host (raw ++ post) cf c name l s off with
+  | Ok (v, o1, t1) => FOk (slot_set s name v) o1 t1 | Exn x => FExn x end = FOk s' o' t.
+Proof.
+  intros cf c name l s off s' o' t Hl Ho H. destruct (unpack_leaf host raw cf c name l s off) as [r|] eqn:E; [|discriminate H].
+  rewrite (unpack_leaf_post raw post _ _ _ _ _ _ _ _ Hl Ho E). exact H.
+Qed.
+
+Lemma unpack_elem_post : forall cf c name e s off s' o' t, elem_closed e = true -> cslots_ok s -> 0 <= off ->
+  unpack_elem host raw rec0 cf c name e s off = FOk s' o' t ->
+  unpack_elem host (raw ++ post) rec1 cf c name e s off = FOk s' o' t.
+Proof.
+  intros cf c name e s off s' o' t He Hs Ho H. destruct e as [l|c' proto|sel dflt]; cbn [unpack_elem elem_closed] in *.
+  - apply leaf_match_post; assumption.
+  - apply rec_match_post; assumption.
+  - rewrite (closed_eval_indep (mkctx (raw ++ post) s off) (mkctx raw s off) sel eq_refl eq_refl He).
+    destruct (eval (mkctx raw s off) sel) as [v|x] eqn:Ev; [|discriminate H].
+    pose proof (closed_eval_ok (mkctx raw s off) sel v Hs He Ev) as Hv.
+    destruct v; try discriminate H.
+    + apply rec_match_post; assumption.
+    + apply rec_match_post; assumption.
+    + apply leaf_match_post; assumption.
+Qed.
+
+Lemma next_slots_ok' : forall s1 i, cslots_ok s1 -> cslots_ok (append_to s1 (FN i) (elem_value s1 (FSeqElem i))).
+Proof.
+  intros s1 i Hs1. apply (append_to_ok value_closed); [vl_hyps|exact Hs1|].
+  apply (elem_value_ok value_closed); [vl_hyps|exact Hs1].
+Qed.
+
+Lemma unpack_elem_cs : forall cf c name e s off s' o' t, cslots_ok s ->
+  unpack_elem host raw rec0 cf c name e s off = FOk s' o' t -> cslots_ok s'.
+Proof. apply (unpack_elem_slots value_closed); try vl_hyps. exact Hrec_cl. Qed.
+
+Lemma unpack_count_post : forall cf c i e al, elem_closed e = true -> 0 < al -> forall k s off t s' o' t',
+  cslots_ok s -> 0 <= off ->
+  unpack_count host raw rec0 cf c i e al k s off t = FOk s' o' t' ->
+  unpack_count host (raw ++ post) rec1 cf c i e al k s off t = FOk s' o' t'.
+Proof.
+  intros cf c i e al He Hal. induction k as [|k IH]; intros s off t s' o' t' Hs Ho H; cbn [unpack_count] in *; [exact H|].
+  destruct (seq_align al off) as [o1|] eqn:A; [|discriminate H].
+  pose proof (seq_align_nonneg _ _ _ Hal Ho A) as Ho1.
+  destruct (unpack_elem host raw rec0 cf c (FSeqElem i) e s o1) as [s1 o2 t1| | |] eqn:E; try discriminate H.
+  rewrite (unpack_elem_post _ _ _ _ _ _ _ _ _ He Hs Ho1 E).
+  apply IH; [|exact (proj1 (unpack_elem_ok host raw rec0 False Hrec_strict' _ _ _ _ _ _ _ _ _ Ho1 E))|exact H].
+  apply next_slots_ok'. exact (unpack_elem_cs _ _ _ _ _ _ _ _ _ Hs E).
+Qed.
+
+Lemma unpack_until_post : forall cf c i e al until, elem_closed e = true -> expr_closed until = true -> 0 < al ->
+  forall fuel s off t s' o' t', cslots_ok s -> 0 <= off ->
+  unpack_until host raw rec0 fuel cf c i e al until s off t = FOk s' o' t' ->
+  unpack_until host (raw ++ post) rec1 fuel cf c i e al until s off t = FOk s' o' t'.
+Proof.
+  intros cf c i e al until He Hu Hal. induction fuel as [|fuel IH]; intros s off t s' o' t' Hs Ho H; cbn [unpack_until] in *;
+    rewrite (closed_eval_indep (mkctx (raw ++ post) s off) (mkctx raw s off) until eq_refl eq_refl Hu);
+    (destruct (eval (mkctx raw s off) until) as [v|x]; [|discriminate H]);
+    (destruct (truth v); [exact H|]); [exact H|].
+  destruct (seq_align al off) as [o1|] eqn:A; [|discriminate H].
+  pose proof (seq_align_nonneg _ _ _ Hal Ho A) as Ho1.
+  destruct (unpack_elem host raw rec0 cf c (FSeqElem i) e s o1) as [s1 o2 t1| | |] eqn:E; try discriminate H.
+  rewrite (unpack_elem_post _ _ _ _ _ _ _ _ _ He Hs Ho1 E).
+  apply IH; [|exact (proj1 (unpack_elem_ok host raw rec0 False Hrec_strict' _ _ _ _ _ _ _ _ _ Ho1 E))|exact H].
+  apply next_slots_ok'. exact (unpack_elem_cs _ _ _ _ _ _ _ _ _ Hs E).
+Qed.
+
+Lemma unpack_field_post : forall cf c f s off ipp s' o' t, cfield_closed f = true -> cfield_wf f = true ->
+  cslots_ok s -> 0 <= off ->
+  unpack_field host raw rec0 loop_fuel cf c f s off ipp = FOk s' o' t ->
+  unpack_field host (raw ++ post) rec1 loop_fuel cf c f s off ipp = FOk s' o' t.
+Proof.
+  intros cf c f s off ipp s' o' t Hl Hwf Hs Ho H.
+  destruct f as [i arg rf al|i e|i first last run0 shift mask nbytes dflt|i e count until when dflt al|i e when dflt|i];
+    cbn [unpack_field cfield_closed] in *.
+  - (* CMove *)
+    destruct arg as [z|g|e]; try exact H.
+    rewrite (closed_eval_int_indep (mkctx (raw ++ post) s off) (mkctx raw s off) e eq_refl eq_refl Hl). exact H.
+  - (* CElem *) apply unpack_elem_post; assumption.
+  - (* CBits *)
+    destruct first; [|exact H].
+    destruct (int_unpack nbytes false true raw off) as [[x o1]|] eqn:E; [|discriminate H].
+    destruct (int_unpack_post raw post _ _ _ _ _ _ Ho E) as (E1 & E2). rewrite E1, E2. exact H.
+  - (* CSeq *)
+    apply andb_true_iff in Hl. destruct Hl as (Hl & Hwhen).
+    apply andb_true_iff in Hl. destruct Hl as (Hl & Huntil). apply andb_true_iff in Hl. destruct Hl as (He & Hcount).
+    cbn [cfield_wf] in Hwf. apply Z.ltb_lt in Hwf.
+    assert (cslots_ok (slot_set s (FN i) (VList []))) as Hs0 by (apply slot_set_ok; [exact Hs|reflexivity]).
+    set (s0 := slot_set s (FN i) (VList [])) in *.
+    assert (match count with Some ce => eval_int (mkctx (raw ++ post) s0 off) ce | None => Ok 1 end =
+            match count with Some ce => eval_int (mkctx raw s0 off) ce | None => Ok 1 end) as Ecount.
+    { destruct count as [ce|]; [|reflexivity]. apply closed_eval_int_indep; [reflexivity|reflexivity|exact Hcount]. }
+    rewrite Ecount. clear Ecount.
+    destruct (match count with Some ce => eval_int (mkctx raw s0 off) ce | None => Ok 1 end) as [n|x]; [|discriminate H].
+    assert (match when with
+            | Some w => if n <=? 0 then Ok true
+                        else match eval (mkctx (raw ++ post) s0 off) w with
+                             | Ok v => Ok (negb (truth v)) | Exn x => Exn x end
+            | None => Ok false end =
+            match when with
+            | Some w => if n <=? 0 then Ok true
+                        else match eval (mkctx raw s0 off) w with
+                             | Ok v => Ok (negb (truth v)) | Exn x => Exn x end
+            | None => Ok false end) as Eskip.
+    { destruct when as [w|]; [|reflexivity]. destruct (n <=? 0); [reflexivity|].
+      rewrite (closed_eval_indep (mkctx (raw ++ post) s0 off) (mkctx raw s0 off) w eq_refl eq_refl Hwhen). reflexivity. }
+    rewrite Eskip. clear Eskip.
+    match goal with |- match ?m with Ok _ => _ | Exn _ => _ end = _ => destruct m as [[|]|x] end; try exact H; try discriminate H.
+    destruct (unpack_count host raw rec0 cf c i e al (Z.to_nat n) s0 off []) as [s1 o1 t1| | |] eqn:C; try discriminate H.
+    rewrite (unpack_count_post _ _ _ _ _ He Hwf _ _ _ _ _ _ _ Hs0 Ho C).
+    destruct until as [u|]; [|exact H]. cbn [oexpr_closed] in Huntil.
+    apply unpack_until_post; try assumption.
+    + refine (unpack_count_slots value_closed _ _ _ _ host raw rec0 Hrec_cl _ _ _ _ _ _ _ _ _ _ _ _ Hs0 C); vl_hyps.
+    + refine (proj1 (unpack_count_ok host raw rec0 False Hrec_strict' _ _ _ _ _ Hwf _ _ _ _ _ _ _ Ho _ C)). intros [].
+  - (* COpt *)
+    apply andb_true_iff in Hl. destruct Hl as (He & Hwhen).
+    rewrite (closed_eval_indep (mkctx (raw ++ post) s off) (mkctx raw s off) when eq_refl eq_refl Hwhen).
+    destruct (eval (mkctx raw s off) when) as [v|x]; [|discriminate H].
+    destruct (truth v); [|exact H].
+    destruct (unpack_elem host raw rec0 cf c (FOptElem i) e s off) as [s1 o2 t1| | |] eqn:E; try discriminate H.
+    rewrite (unpack_elem_post _ _ _ _ _ _ _ _ _ He Hs Ho E). exact H.
+  - (* CEm *) exact H.
+Qed.
+
+Lemma field_step_post : forall cf c f s off ipp (K0 K1 : slots -> Z -> trace -> pres) v e t,
+  cfield_closed f = true -> cfield_wf f = true -> cslots_ok s -> 0 <= off ->
+  (forall s1 o1 t1, cslots_ok s1 -> 0 <= o1 -> K0 s1 o1 t1 = POk v e t -> K1 s1 o1 t1 = POk v e t) ->
+  match unpack_field host raw rec0 loop_fuel cf c f s off ipp with
+  | FOk s1 o1 t1 => K0 s1 o1 t1
+  | FExn _ => PFail [(off, cf_name f, c)]
+  | FFail st => PFail (st ++ [(off, cf_name f, c)])
+  | FFuel => PFuel end = POk v e t ->
+  match unpack_field host (raw ++ post) rec1 loop_fuel cf c f s off ipp with
+  | FOk s1 o1 t1 => K1 s1 o1 t1
+  | FExn _ => PFail [(off, cf_name f, c)]
+  | FFail st => PFail (st ++ [(off, cf_name f, c)])
+  | FFuel => PFuel end = POk v e t.
+Proof.
+  intros cf c f s off ipp K0 K1 v e t Hl Hwf Hs Ho HK H.
+  destruct (unpack_field host raw rec0 loop_fuel cf c f s off ipp) as [s1 o1 t1| | |] eqn:E; try discriminate H.
+  rewrite (unpack_field_post _ _ _ _ _ _ _ _ _ Hl Hwf Hs Ho E). apply HK; [| |exact H].
+  - refine (unpack_field_slots value_closed _ _ _ _ host raw rec0 loop_fuel Hrec_cl _ _ _ _ _ _ _ _ _ Hs E); vl_hyps.
+  - exact (proj1 (unpack_field_ok host raw rec0 loop_fuel False Hrec_strict' _ _ _ _ _ _ _ _ _ Hwf Ho E)).
+Qed.
+
+Lemma unpack_fields_post : forall cf c fs s off ipp t v e t',
+  forallb cfield_closed fs = true -> forallb cfield_wf fs = true -> cslots_ok s -> 0 <= off ->
+  unpack_fields host raw rec0 loop_fuel cf c fs s off ipp t = POk v e t' ->
+  unpack_fields host (raw ++ post) rec1 loop_fuel cf c fs s off ipp t = POk v e t'.
+Proof.
+  intros cf c. induction fs as [|f r IH]; intros s off ipp t v e t' Hl Hwf Hs Ho H; cbn [unpack_fields] in *; [exact H|].
+  cbn [forallb] in Hl, Hwf. apply andb_true_iff in Hl. apply andb_true_iff in Hwf.
+  destruct Hl as (Hlf & Hlr). destruct Hwf as (Hwf & Hwr).
+  apply (field_step_post cf c f s off ipp
+           (fun s1 o1 t1 => unpack_fields host raw rec0 loop_fuel cf c r s1 o1 ipp (t ++ t1))
+           (fun s1 o1 t1 => unpack_fields host (raw ++ post) rec1 loop_fuel cf c r s1 o1 ipp (t ++ t1)));
+    try assumption.
+  intros s1 o1 t1 Hs1 Ho1 H1. apply IH; assumption.
+Qed.
+
+Definition block_closed (b : block) : Prop :=
+  match b with BLoop f => cfield_closed f = true /\ cfield_wf f = true | BStruct _ _ => True end.
+
+Lemma unpack_blocks_post : forall cf c bs s off ipp t v e t', Forall block_closed bs -> cslots_ok s -> 0 <= off ->
+  unpack_blocks host raw rec0 loop_fuel cf c bs s off ipp t = POk v e t' ->
+  unpack_blocks host (raw ++ post) rec1 loop_fuel cf c bs s off ipp t = POk v e t'.
+Proof.
+  intros cf c. induction bs as [|b r IH]; intros s off ipp t v e t' Hl Hs Ho H; cbn [unpack_blocks] in *; [exact H|].
+  inversion Hl as [|b' r' Hb Hr]; subst. destruct b as [big ms|f].
+  - destruct (Z.eqb_spec (blen (slice raw off (off + run_size ms))) (run_size ms)) as [El|El]; [|discriminate H].
+    rewrite (slice_post_full raw post off (off + run_size ms) Ho) by lia. rewrite El, Z.eqb_refl.
+    destruct (struct_unpack ms (slice raw off (off + run_size ms)) off s) as [s1 t1] eqn:S.
+    pose proof (blen_nonneg (slice raw off (off + run_size ms))) as Hn.
+    apply IH; [exact Hr| |lia|exact H].
+    refine (struct_unpack_slots value_closed _ _ _ _ _ _ _ _ _ Hs S); vl_hyps.
+  - destruct Hb as (Hlf & Hwf).
+    apply (field_step_post cf c f s off ipp
+             (fun s1 o1 t1 => unpack_blocks host raw rec0 loop_fuel cf c r s1 o1 ipp (t ++ t1))
+             (fun s1 o1 t1 => unpack_blocks host (raw ++ post) rec1 loop_fuel cf c r s1 o1 ipp (t ++ t1)));
+      try assumption.
+    intros s1 o1 t1 Hs1 Ho1 H1. apply IH; assumption.
+Qed.
+End Suffix.
+
+Lemma forallb_Forall_and' : forall fs, forallb cfield_closed fs = true -> forallb cfield_wf fs = true ->
+  Forall (fun f => cfield_closed f = true /\ cfield_wf f = true) fs.
+Proof.
+  induction fs as [|f r IH]; intros Hl Hw; [constructor|]. cbn [forallb] in Hl, Hw.
+  apply andb_true_iff in Hl. apply andb_true_iff in Hw. constructor; [split; [apply Hl|apply Hw]|apply IH; [apply Hl|apply Hw]].
+Qed.
+
+Theorem unpack_any_suffix : forall fuel host ct raw post c off v e t,
+  ct_wf ct = true -> ct_closed ct = true -> 0 <= off ->
+  unpack_any fuel host ct raw c off = POk v e t ->
+  unpack_any fuel host ct (raw ++ post) c off = POk v e t.
+Proof.
+  intros fuel host ct raw post c off v e t Hwf Hcl. revert c off v e t.
+  induction fuel as [|fuel IH]; intros c off v e t Ho H; cbn [unpack_any] in *; [discriminate H|].
+  destruct (ct_get ct c) as [k|] eqn:K; [|discriminate H].
+  pose proof (ct_get_forallb class_wf ct c k Hwf K) as Hk. unfold class_wf in Hk.
+  pose proof (ct_get_forallb (fun k => forallb cfield_closed (cc_fields k)) ct c k Hcl K) as Hl. cbn beta in Hl.
+  assert (forall c0 o v e t, 0 <= o -> unpack_any fuel host ct raw c0 o = POk v e t -> 0 <= e) as Hnn.
+  { intros c0 o v0 e0 t0 Ho0 H0. exact (unpack_any_nonneg _ _ _ _ _ _ _ _ _ Hwf Ho0 H0). }
+  assert (forall c0 o v e t, unpack_any fuel host ct raw c0 o = POk v e t -> value_closed v = true) as Hvl.
+  { intros c0 o v0 e0 t0 H0. exact (closed_unpack_any_vl _ _ _ _ _ _ _ _ _ H0). }
+  destruct (cc_gen_unpack k).
+  - apply (unpack_blocks_post host raw post (unpack_any fuel host ct raw) (unpack_any fuel host ct (raw ++ post)) fuel
+             IH Hnn Hvl); try assumption; [|reflexivity].
+    eapply Forall_impl; [|apply gen_blocks_loops; exact (forallb_Forall_and' _ Hl Hk)].
+    intros [big ms|f] Hb; [exact I|exact Hb].
+  - apply (unpack_fields_post host raw post (unpack_any fuel host ct raw) (unpack_any fuel host ct (raw ++ post)) fuel
+             IH Hnn Hvl); try assumption. reflexivity.
+Qed.
+
+Print Assumptions unpack_any_prefix.
+Print Assumptions unpack_pkt_prefix.
+Print Assumptions unpack_any_prefix_ok.
+Print Assumptions unpack_pkt_prefix_ok.
+Print Assumptions unpack_any_suffix.
